@@ -221,16 +221,27 @@ theorem NoRep.foldl_closeGuard (gs : List Guard) {s : Sys} (h : NoRep s) (t : Na
   | nil => exact h
   | cons g gs ih => exact ih (h.closeGuard t g)
 
+theorem NoRep.enterExitLocal {s : Sys} (h : NoRep s) (t : Nat) : NoRep (s.enterExitLocal t) := by
+  unfold Sys.enterExitLocal
+  dsimp only
+  cases hs : (s.th t).stack.enterSpan (s.ctr t) "cl" with
+  | none => exact h
+  | some res =>
+    obtain ⟨st1, hd, c1⟩ := res
+    dsimp only
+    exact (h.setStack t _ (((h.lines t).enterSpan hs).exitSpan c1 hd)).putCtr t _
+
+theorem NoRep.foldl_enterExitLocal {α : Type} (l : List α) {s : Sys} (h : NoRep s) (t : Nat) :
+    NoRep (l.foldl (fun s _ => s.enterExitLocal t) s) := by
+  induction l generalizing s with
+  | nil => exact h
+  | cons x xs ih => exact ih (h.enterExitLocal t)
+
 theorem NoRep.runClosure {s : Sys} (h : NoRep s) (t : Nat) (cl : Closure) : NoRep (s.runClosure t cl) := by
   unfold Sys.runClosure
   split
-  · dsimp only
-    cases hs : (s.th t).stack.enterSpan (s.ctr t) "cl" with
-    | none => exact h
-    | some res =>
-      obtain ⟨st1, hd, c1⟩ := res
-      dsimp only
-      exact (h.setStack t _ (((h.lines t).enterSpan hs).exitSpan c1 hd)).putCtr t _
+  · exact h.enterExitLocal t
+  · exact NoRep.foldl_enterExitLocal _ h t
   · dsimp only
     exact (h.setStack t _ ((h.lines t).addEvent (s.ctr t) "cl-ev" none)).putCtr t _
   · rw [(h.lines t).currentToken_none]
